@@ -141,7 +141,7 @@ def build(r, name, repr_key, n, mask, fieldless, generics=None, style=None):
     if generics:
         # carrier variant must not disturb numbering assumptions: append at the end
         used_t = {f.ty for v in spec.variants for f in v.fields}
-        need = {"T": ["T"], "N": ["CG"], "TN": ["T", "CG"], "TU": ["T", "U"], "Tw": ["T"], "TwU": ["T", "U"], "Tdef": ["T"]}[generics]
+        need = {"T": ["T"], "N": ["CG"], "TN": ["T", "CG"], "TU": ["T", "U"], "Tw": ["T"], "TwU": ["T", "U"], "Tdef": ["T"], "NT": ["T", "CG"], "Tnd": ["OptT"]}[generics]
         missing = [t for t in need if t not in used_t]
         if missing:
             if prev is not None and (prev + 1 > hi or prev + 1 in used):
@@ -222,7 +222,7 @@ def check(run):
         n = r.choice([1, 2, 3, 4, 5, 6, 8, 12])
         mask = [r.random() < 0.25 for _ in range(n)]
         fieldless = r.random() < 0.55
-        g = None if fieldless else r.choice([None, None, "T", "N", "TN", "TU", "Tw", "TwU", "Tdef"])
+        g = None if fieldless else r.choice([None, None, "T", "N", "TN", "TU", "Tw", "TwU", "Tdef", "NT", "Tnd"])
         s = build(r, "R%d" % k, rk, n, mask, fieldless, generics=g)
         if s is not None:
             specs.append(s)
